@@ -765,6 +765,7 @@ class FakeNet:
     fail_bind_ports = set()       # fault injection: bind() on these ports raises OSError
     fail_connect = set()          # ports refusing connections
     segment = None                # optional function(bytes)->list of chunks (segmentation chosen by the harness)
+    no_coalesce = False           # True: one recv() returns at most one sent chunk
 
     @classmethod
     def reset(cls):
@@ -776,6 +777,7 @@ class FakeNet:
         cls.fail_bind_ports = set()
         cls.fail_connect = set()
         cls.segment = None
+        cls.no_coalesce = False
 
 
 class FakeSocket:
@@ -916,11 +918,19 @@ class FakeSocket:
                 raise _rs.timeout("timed out")
             self._check()
         if self._rx:
-            c = self._rx.popleft()
-            if len(c) > n:
-                self._rx.appendleft(c[n:])
-                c = c[:n]
-            return c
+            # a TCP stream: everything that has arrived is handed out together (up to n bytes), so several
+            # frames sent back to back can land in one recv() — as on a real socket
+            out = bytearray()
+            while self._rx and len(out) < n:
+                c = self._rx.popleft()
+                take = n - len(out)
+                if len(c) > take:
+                    self._rx.appendleft(c[take:])
+                    c = c[:take]
+                out.extend(c)
+                if FakeNet.no_coalesce:
+                    break
+            return bytes(out)
         return b""
 
     def recvfrom(self, n):
